@@ -153,8 +153,8 @@ impl Check for C13 {
     fn assumptions(&self) -> Vec<String> { vec!["transaction version 2 (the interpreter is not given the version)".into()] }
     fn lanes(&self, tier: Tier) -> Vec<(&'static str, usize, usize)> {
         match tier {
-            Tier::Quick => vec![("interp", 12_000, 400)],
-            Tier::Thorough => vec![("interp", 800_000, 500)],
+            Tier::Quick => vec![("interp", 240_000, 400)],
+            Tier::Thorough => vec![("interp", 6_000_000, 500)],
         }
     }
     fn run_case(&self, _lane: &str, src: &mut Src, rep: &mut Report) -> Result<(), Failure> {
@@ -222,8 +222,29 @@ impl Check for C13 {
                     if items.is_empty() {
                         break;
                     }
-                    let i = src.below(items.len());
-                    match src.below(9) {
+                    let mut i = src.below(items.len());
+                    let mut choice = src.below(12);
+                    if choice >= 9 {
+                        // targeted at the elements that select branches / mark absent signatures:
+                        // flip an empty element or a 0x01 (over- or under-satisfy a threshold,
+                        // take the other branch)
+                        let cands: Vec<usize> = (0..items.len()).filter(|j| items[*j].is_empty() || items[*j] == vec![1u8]).collect();
+                        if cands.is_empty() {
+                            choice = src.below(9);
+                        } else {
+                            i = *src.pick(&cands);
+                            choice = if items[i].is_empty() {
+                                if choice == 9 {
+                                    4
+                                } else {
+                                    6
+                                }
+                            } else {
+                                3
+                            };
+                        }
+                    }
+                    match choice {
                         0 => {
                             items.remove(i);
                             var_desc.push_str(" drop");
